@@ -26,6 +26,8 @@ Hyper-parameter layout: concatenation of the components' parameters in the order
 CP the kernels' parameters first, then (location, width) for each change-point.
 Mean specification: "C" (1 parameter) | "L" (1+d) | "Q" (1+2d) | "N" (3; a user-defined mean that is non-linear in
 its hyper-parameters, m(x) = exp(a) sin(b x_0 + c), theta = [a, b, c] - used by checks/c17.py).
+Further user-defined means of checks/c17.py, all non-uniform in x (x_0 = first coordinate, as given):
+    "U0" (0 parameters) 0.3 cos(1.3 x_0) | "U1" (1) a (1 + x_0) | "S1" (1) a sin(2 x_0) | "U2" (2) a + b x_0^2
 """
 import math
 
@@ -70,7 +72,7 @@ def kernel_n_params(spec, d):
 
 
 def mean_n_params(spec, d):
-    return {"C": 1, "L": 1 + d, "Q": 1 + 2 * d, "N": 3}[spec]
+    return {"C": 1, "L": 1 + d, "Q": 1 + 2 * d, "N": 3, "U0": 0, "U1": 1, "S1": 1, "U2": 2}[spec]
 
 
 def kernel_param_units(spec, th, d):
@@ -182,6 +184,14 @@ def mean_abs_vector(spec, th, X, xbar):
     if spec == "N":
         # exp(a) sin(b x_0 + c): the argument is formed to eps (|b x_0| + |c|), the sine to eps
         return [mp.exp(th[0]) * (1 + abs(th[1] * x[0]) + abs(th[2])) for x in X]
+    if spec == "U0":  # 0.3 cos(1.3 x_0): argument to eps |1.3 x_0|, cosine to eps
+        return [M("0.3") * (1 + abs(M("1.3") * x[0])) for x in X]
+    if spec == "U1":
+        return [abs(th[0]) * (1 + abs(x[0])) for x in X]
+    if spec == "S1":
+        return [abs(th[0]) * (1 + 2 * abs(x[0])) for x in X]
+    if spec == "U2":
+        return [abs(th[0]) + 2 * abs(th[1]) * x[0] ** 2 for x in X]
     out = []
     for x in X:
         v = abs(th[0])
@@ -217,6 +227,14 @@ def mean_vector(spec, th, X, xbar):
     d = len(xbar)
     if spec == "N":
         return [mp.exp(th[0]) * mp.sin(th[1] * x[0] + th[2]) for x in X]
+    if spec == "U0":
+        return [M(0.3) * mp.cos(M(1.3) * x[0]) for x in X]
+    if spec == "U1":
+        return [th[0] * (1 + x[0]) for x in X]
+    if spec == "S1":
+        return [th[0] * mp.sin(2 * x[0]) for x in X]
+    if spec == "U2":
+        return [th[0] + th[1] * x[0] ** 2 for x in X]
     out = []
     for x in X:
         v = th[0]
